@@ -1,15 +1,12 @@
 import SspModel.Real
 import SspModel.Generated.Formulas
 import SspModel.Model.Bins
-import SspModel.Model.Extract
-import SspModel.Model.Eject
 import Mathlib.Tactic.NormNum
 /-!
-# Bridge (Bins / Row): carving masks, bin lookup, row extraction and the row-level ejection budget
+# Bridge (Bins): carving masks and bin lookup
 
-The masks with which `MassBins.__init__` carves the remnant bins, the two comparisons of `determine_index`, the expressions with which
-`_evolve` turns `(Ns, alpha)` into `(Ms, ms)` (both classes, thin-bin rule included) and the budget arithmetic around the ejection
-(`M_eject`, `M_ret`, kick-all shortcut, kicks subtracted, over-budget test), as they are in the source now, are the model's.
+The masks with which `MassBins.__init__` carves the remnant bins and the two comparisons of `determine_index`, as they are in the
+source now, are the model's.
 -/
 namespace Bridge
 open Model Scalar
@@ -28,31 +25,5 @@ theorem gen_lastLowerLe_cons (l u m : ℝ) (t : List (Bin ℝ)) (i : Nat) (acc :
 theorem gen_lookup_over (u m : ℝ) : Generated.lookup_over u m = le u m := rfl
 theorem gen_lookup_last (x : ℝ) : Generated.lookup_last_bin_test x = 1 := by
   simp only [Generated.lookup_last_bin_test, real_one]
-
-/-- row extraction of one star bin, both classes' copies of the code -/
-theorem gen_extractStar (n a lo hi : ℝ) :
-    extractStar n a lo hi =
-      match Pk a 1 lo hi, Pk a 2 lo hi with
-      | some p1, some p2 => some (Generated.row_Ms (Generated.row_As n p1) p2, Generated.row_ms (Generated.row_Ms (Generated.row_As n p1) p2) n)
-      | _, _ => some (Generated.row_thin n lo, Generated.row_ms (Generated.row_thin n lo) n) := by
-  unfold extractStar
-  simp only [Generated.row_Ms, Generated.row_As, Generated.row_ms, Generated.row_thin, real_one, real_two]
-  cases Pk a 1 lo hi <;> cases Pk a 2 lo hi <;> rfl
-
-theorem gen_row_same_in_both_classes (n p1 A p2 lo Ms : ℝ) :
-    Generated.rowbh_As n p1 = Generated.row_As n p1 ∧ Generated.rowbh_Ms A p2 = Generated.row_Ms A p2 ∧
-    Generated.rowbh_thin n lo = Generated.row_thin n lo ∧ Generated.rowbh_ms Ms n = Generated.row_ms Ms n := ⟨rfl, rfl, rfl, rfl⟩
-
-/-- the budget arithmetic of one output row around the ejection -/
-theorem gen_row_budget (formed ret mej kicked mret mmin nmin : ℝ) :
-    Generated.row_mej formed ret = formed * (1 - ret) ∧ Generated.row_mret formed mej = formed - mej ∧
-    Generated.row_shortcut mret mmin nmin = (le 0 (mret / mmin) && lt (mret / mmin) nmin) ∧
-    Generated.row_after_kicks mej kicked = mej - kicked ∧ Generated.row_over_budget mej = lt mej 0 := by
-  have e1 : (@OfScientific.ofScientific ℝ ScalarLit.instOfSci 10 true 1) = (1:ℝ) := by rw [real_ofSci]; norm_num
-  have e0 : (@OfScientific.ofScientific ℝ ScalarLit.instOfSci 0 true 1) = (0:ℝ) := by rw [real_ofSci]; norm_num
-  refine ⟨?_, rfl, ?_, rfl, ?_⟩
-  · simp only [Generated.row_mej, e1]
-  · simp only [Generated.row_shortcut, e0]
-  · simp only [Generated.row_over_budget, real_zero]
 
 end Bridge
